@@ -102,6 +102,65 @@ theorem parse_error_line (ws : Ws) (ae : Option Str) (text : Str) (e : PErr) (h 
 example : scan .all none [97, 10, 10, 123, 37, 120, 37, 125] = .error ⟨.unknownOp, 3⟩ := rfl
 example : lineAt [97, 10, 10, 123, 37, 120, 37, 125] 8 = 3 := by decide
 
+theorem lineAt_prefix (A B : Str) : lineAt (A ++ B) A.length = 1 + countNl A := by simp [lineAt]
+
+/-- **parse_error_located**: every `ParseError` names the line of *the* offending directive.  Either
+(a) the error is raised by a complete directive `T = {x … x}`: every token before it was accepted by the builder (state
+`st`), `T` is the first one `stepTok` rejects — with exactly the reported error —, its source sits in the template at
+offset `|A|` (`A` = source of the accepted tokens), it opens on line `lineAt text |A|` and the reported line is the line
+of the offset just behind its closing marker (`reader.line` after the directive has been consumed; the line of the
+directive itself unless it spans several lines); or
+(b) all complete directives were accepted and the input ran out (`Missing {% end %}`, a directive that is never
+closed): the reported line is that of the offset where the remaining text / the unclosed directive starts. -/
+theorem parse_error_located (ws : Ws) (ae : Option Str) (text : Str) (e : PErr) (h : scan ws ae text = .error e) :
+    (∃ pre k c l post st rest,
+        (lex text).1 = pre ++ Tok.tag k c l e.line :: post ∧
+        runToks ⟨ws, ae, [], []⟩ pre = .ok st ∧ stepTok st (.tag k c l e.line) = .error e ∧
+        text = pre.flatMap Tok.src ++ (Tok.tag k c l e.line).src ++ rest ∧
+        l = lineAt text (pre.flatMap Tok.src).length ∧
+        e.line = lineAt text ((pre.flatMap Tok.src).length + (Tok.tag k c l e.line).src.length)) ∨
+    (∃ st, runToks ⟨ws, ae, [], []⟩ (lex text).1 = .ok st ∧ finish st (lex text).2 = .error e ∧
+        text = (lex text).1.flatMap Tok.src ++ (lex text).2.src ∧
+        e.line = lineAt text ((lex text).1.flatMap Tok.src).length) := by
+  have hsrc := lex_src text
+  have hw := lex_line_invariant text
+  unfold scan at h
+  generalize lex text = r at h hsrc hw ⊢
+  obtain ⟨ts, f⟩ := r
+  simp only at h hsrc hw ⊢
+  rcases build_err_split h with ⟨pre, t, post, st, rfl, hr, he⟩ | ⟨st, hr, he⟩
+  · obtain ⟨k, c, l, rfl⟩ := stepTok_err he
+    have hw' := walk_split hw
+    simp only [walk] at hw'
+    obtain ⟨hl, hle, _⟩ := hw'
+    have htext : text = pre.flatMap Tok.src ++ (Tok.tag k c l e.line).src ++ (post.flatMap Tok.src ++ f.src) := by
+      rw [← hsrc]; simp [List.flatMap_append, List.flatMap_cons]
+    refine .inl ⟨pre, k, c, l, post, st, _, rfl, hr, he, htext, ?_, ?_⟩
+    · rw [htext, List.append_assoc, lineAt_prefix, hl]
+    · rw [htext, ← List.length_append, lineAt_prefix, countNl_append, countNl_tag_src, hle, Nat.add_assoc]
+  · have hw' := walk_split (rest := []) (by simpa using hw)
+    refine .inr ⟨st, hr, he, hsrc.symm, ?_⟩
+    rw [← hsrc, lineAt_prefix]
+    cases f with
+    | eof l r le =>
+      simp only [walk] at hw'
+      simp only [finish] at he
+      split at he
+      · cases he; exact hw'.1
+      · cases he
+    | unterminated k l r =>
+      simp only [walk] at hw'
+      cases k <;> simp only [finish] at he <;> cases he <;> exact hw'
+
+-- non-vacuity (a): `a\n\n{%x%}`: the unknown operator is the first (and only) directive, at offset 3, line 3
+example : (lex [97, 10, 10, 123, 37, 120, 37, 125]).1 = [.text [97, 10, 10] 3, .tag .block [120] 3 3] := by rfl
+example : stepTok ⟨.all, none, [], [.text [97, 10, 10] 3 .all]⟩ (.tag .block [120] 3 3) = .error ⟨.unknownOp, 3⟩ := by rfl
+-- (a) with an earlier accepted directive and a directive spanning two lines: `{%if x%}{%end%}{{\n}}` reports line 2
+example : scan .all none [123, 37, 105, 102, 32, 120, 37, 125, 123, 37, 101, 110, 100, 37, 125, 123, 123, 10, 125, 125]
+    = .error ⟨.emptyExpr, 2⟩ := by rfl
+-- (b) `a\n{%if x%}\nb`: input runs out on line 3 with the `if` open
+example : scan .all none [97, 10, 123, 37, 105, 102, 32, 120, 37, 125, 10, 98] = .error ⟨.missingEnd, 2⟩ := by rfl
+
 /-- **unterminated_error_line**: a directive that is never closed is reported on the line of its opening marker. -/
 theorem unterminated_error_line (k : TagKind) (acc : Str) (l0 : Nat) (s : Str) (st : BState) (e : PErr)
     (h : finish st (lexTag k acc l0 s).2 = .error e) (hts : (lexTag k acc l0 s).1 = []) : e.line = l0 := by
@@ -239,6 +298,74 @@ def interp_matches_gen_structure_goal : Prop :=
   ∀ (L : Loader) (t : FileInfo) (env : Env) (fuel : Nat) (lines : List Line) (out : List Nat),
     generatePython L fuel t = .ok lines → render L fuel t env = .ok out →
     ∃ sem : List Line → Env → Option (List Nat), sem lines env = some out
+
+/-! ### `break` / `continue` in a body that is generated somewhere else (known finding `valid/compile-error/break-in-moved-block`)
+
+`_parse` lets `{% block %}` inherit `in_loop`, so `{% for %}{% block b %}{% break %}{% end %}{% end %}` is accepted.  The body of a block
+is generated at the position of the block `b` of the ROOT template of the `{% extends %}` chain, which may be outside every
+loop (or inside an `{% apply %}` function): the generated module then fails to compile with a `SyntaxError` that names a line
+of the generated file — not a `ParseError` naming a line of the template. -/
+
+/-- what the property demands: every template set that is accepted (no ParseError) generates a module that respects
+Python's rule for `break` / `continue` -/
+def break_inside_loop_full : Prop :=
+  ∀ (s : Settings) (srcs : List Source) (entry : Str) (lines : List Line),
+    compile s srcs entry = .code lines → loopOK lines = true
+
+def exBreakSrcs : List Source := [⟨(/-"p"-/ [112] : List Nat), (/-"{% block b %}{% end %}"-/ [123, 37, 32, 98, 108, 111, 99, 107, 32, 98, 32, 37, 125, 123, 37, 32, 101, 110, 100, 32, 37, 125] : List Nat)⟩, ⟨(/-"e"-/ [101] : List Nat), (/-"{% extends p %}{% for q in l %}{% block b %}{% break %}{% end %}{% end %}"-/ [123, 37, 32, 101, 120, 116, 101, 110, 100, 115, 32, 112, 32, 37, 125, 123, 37, 32, 102, 111, 114, 32, 113, 32, 105, 110, 32, 108, 32, 37, 125, 123, 37, 32, 98, 108, 111, 99, 107, 32, 98, 32, 37, 125, 123, 37, 32, 98, 114, 101, 97, 107, 32, 37, 125, 123, 37, 32, 101, 110, 100, 32, 37, 125, 123, 37, 32, 101, 110, 100, 32, 37, 125] : List Nat)⟩]
+
+/-- **break_inside_loop_refuted**: `p` = `{% block b %}{% end %}`, `e` = `{% extends p %}{% for q in l %}{% block b %}{% break %}{% end %}{% end %}`:
+both files parse, the generated module has `break` directly under `def _tt_execute():` -/
+theorem break_inside_loop_refuted : ¬ break_inside_loop_full := by
+  intro h
+  have key : (match compile ⟨none, none⟩ exBreakSrcs (/-"e"-/ [101] : List Nat) with | .code lines => loopOK lines | _ => true) = false := by rfl
+  cases hc : compile ⟨none, none⟩ exBreakSrcs (/-"e"-/ [101] : List Nat) with
+  | code lines =>
+    rw [hc] at key
+    simp only [] at key
+    rw [h _ _ _ lines hc] at key
+    cases key
+  | parseError f e => rw [hc] at key; cases key
+  | genError e => rw [hc] at key; cases key
+
+/-- **break_inside_loop_partial** (what holds of the current code, side condition on the generated lines): a module in
+which no line is `break` / `continue` trivially respects the rule, from any stack of open headers.  The statement one
+wants instead — side condition on the *sources*: no `{% block %}` body has a `break` / `continue` that is not inside a loop of
+that body — is `break_inside_loop_goal` (open; the check decides it on every case through CPython's own verdict). -/
+theorem break_inside_loop_partial (lines : List Line) (stack : List (Nat × Str))
+    (h : ∀ l ∈ lines, (l.code == (/-"break"-/ [98, 114, 101, 97, 107] : List Nat) || l.code == (/-"continue"-/ [99, 111, 110, 116, 105, 110, 117, 101] : List Nat)) = false) :
+    loopOKFrom stack lines = true := by
+  induction lines generalizing stack with
+  | nil => rfl
+  | cons l ls ih =>
+    simp only [loopOKFrom, h l (List.mem_cons_self ..), Bool.false_eq_true, if_false, Bool.true_and]
+    exact ih _ (fun l' hl' => h l' (List.mem_cons_of_mem _ hl'))
+
+/-- no `break` / `continue` chunk reachable without passing a loop (`{% apply %}` bodies start afresh, like in `_parse`) -/
+def noFreeBreak : List Node → Bool
+  | [] => true
+  | .stmt s _ :: ns => !(s == (/-"break"-/ [98, 114, 101, 97, 107] : List Nat) || s == (/-"continue"-/ [99, 111, 110, 116, 105, 110, 117, 101] : List Nat)) && noFreeBreak ns
+  | .control s _ body :: ns =>
+    (hdrIsLoop (s ++ [58]) || noFreeBreak body) && noFreeBreak ns
+  | .block _ _ body :: ns => noFreeBreak body && noFreeBreak ns
+  | _ :: ns => noFreeBreak ns
+
+/-- every `{% block %}` body of a body is free of loose `break` / `continue` -/
+def blocksClosed : List Node → Bool
+  | [] => true
+  | .block _ _ body :: ns => noFreeBreak body && blocksClosed body && blocksClosed ns
+  | .control _ _ body :: ns => blocksClosed body && blocksClosed ns
+  | .apply _ _ body :: ns => blocksClosed body && blocksClosed ns
+  | _ :: ns => blocksClosed ns
+
+/-- the open part: if no block body of any loaded file has a loose `break` / `continue`, the generated module is fine -/
+def break_inside_loop_goal : Prop :=
+  ∀ (s : Settings) (srcs : List Source) (entry : Str) (L : Loader) (lines : List Line),
+    loadAll s srcs (fuelFor srcs) [entry] [] = .ok L → (∀ t ∈ L, blocksClosed t.body = true) →
+    compile s srcs entry = .code lines → loopOK lines = true
+
+-- non-vacuity: the same block inside the loop of ONE file is fine (and is what `in_loop` inheritance is for)
+example : (match compile ⟨none, none⟩ [⟨(/-"e"-/ [101] : List Nat), (/-"{% for q in l %}{% block b %}{% break %}{% end %}{% end %}"-/ [123, 37, 32, 102, 111, 114, 32, 113, 32, 105, 110, 32, 108, 32, 37, 125, 123, 37, 32, 98, 108, 111, 99, 107, 32, 98, 32, 37, 125, 123, 37, 32, 98, 114, 101, 97, 107, 32, 37, 125, 123, 37, 32, 101, 110, 100, 32, 37, 125, 123, 37, 32, 101, 110, 100, 32, 37, 125] : List Nat)⟩] (/-"e"-/ [101] : List Nat) with | .code lines => loopOK lines | _ => false) = true := by rfl
 
 /-! ### the loader: names are resolved against the mentioning file, the cache is keyed by the resolved name -/
 
